@@ -1968,6 +1968,56 @@ def dispatch(ctx, case, lines, pending):
         run_case(ctx, case, lines, pending)
 
 
+def stale_fit_info_probes(ctx, count):
+    """a corrector that is aligned again carries the fit_info of the LAST call only: the same call on a corrector
+    freshly built from the same WCS and catalog gives the same fit_info (same keys, same status) - a successful
+    alignment with matching followed by a call that fails, and a call with a matcher followed by match=None"""
+    from astropy.table import Table
+    from astropy import wcs as fitswcs
+    from tweakwcs import FITSWCSCorrector, align_wcs, XYXYMatch
+    rng = ctx.rng
+    for it in range(count):
+        npr = np.random.default_rng(rng.getrandbits(32))
+        w = fitswcs.WCS(naxis=2)
+        w.wcs.crpix = [512.0, 512.0]
+        w.wcs.crval = [float(npr.uniform(0, 360)), float(npr.uniform(-60, 60))]
+        a = float(npr.uniform(0, 6.28))
+        w.wcs.cd = np.array([[-np.cos(a), np.sin(a)], [np.sin(a), np.cos(a)]]) * 2e-5
+        w.wcs.ctype = ['RA---TAN', 'DEC--TAN']
+        w.pixel_shape = (1024, 1024)
+        w.wcs.set()
+        gx, gy = np.meshgrid(np.arange(150, 900, 90.0), np.arange(150, 900, 90.0))
+        x = (gx + npr.uniform(-20, 20, gx.shape)).ravel()
+        y = (gy + npr.uniform(-20, 20, gy.shape)).ravel()
+        ra, dec = w.all_pix2world(x, y, 0)
+        cat = Table([x + 0.4, y - 0.3], names=('x', 'y'))
+        ref_full = Table([ra, dec], names=('RA', 'DEC'))
+        second = ['fail-general-2-sources', 'match-none'][it % 2]
+        case = {'op': 'stale-fit-info', 'second': second}
+        ctx.case(case, nontrivial=True, branch='stale-fit-info:' + second)
+        try:
+            c = FITSWCSCorrector(w.deepcopy(), meta={'catalog': cat.copy(), 'name': 'im'})
+            align_wcs([c], refcat=ref_full.copy(), fitgeom='rscale',
+                      match=XYXYMatch(searchrad=5, separation=0.5, tolerance=2.0, use2dhist=False))
+            fresh = FITSWCSCorrector(c.wcs.deepcopy(), meta={'catalog': cat.copy(), 'name': 'im'})
+            for cc in (c, fresh):
+                if second == 'fail-general-2-sources':
+                    align_wcs([cc], refcat=ref_full[:2].copy(), fitgeom='general',
+                              match=XYXYMatch(searchrad=5, separation=0.5, tolerance=2.0, use2dhist=False))
+                else:
+                    align_wcs([cc], refcat=ref_full.copy(), fitgeom='shift', match=None)
+        except Exception as e:   # noqa
+            ctx.oracle_fail(case, {'what': 'align_wcs raised', 'exception': '%s: %s' % (type(e).__name__, str(e)[:100])})
+            continue
+        f1, f2 = c.meta.get('fit_info', {}), fresh.meta.get('fit_info', {})
+        if set(f1) != set(f2) or f1.get('status') != f2.get('status'):
+            ctx.oracle_fail(case, {'what': 'the fit_info of a corrector aligned for the second time is not the fit_info of '
+                                           'the same call on a fresh corrector (results of the earlier call survive)',
+                                   'only_in_repeated': sorted(set(f1) - set(f2))[:8],
+                                   'only_in_fresh': sorted(set(f2) - set(f1))[:8],
+                                   'status': [f1.get('status'), f2.get('status')]})
+
+
 def run(ctx):
     import warnings
     import logging
@@ -1978,6 +2028,7 @@ def run(ctx):
     lines, pending = [], []
     cases = []
     set_baseline()
+    stale_fit_info_probes(ctx, 4 if ctx.tier == 'quick' else 20)
     if not ctx.search_only:
         probe_f19(ctx)
         cases.extend(corpus(full=(ctx.tier != 'quick')))
